@@ -52,10 +52,18 @@ DataAndClose ==
   /\ pc' = "idle" /\ txn' = txn + 1
   /\ UNCHANGED <<list, srvList, nrc>>
 
+\* the peer answers the DATA command itself negatively (4xx/5xx instead of 354):
+\* Data/LMTPData return the error, the transaction is over on both sides, and
+\* the application goes on with the next MAIL without calling Reset
+DataRefused ==
+  /\ pc = "mail" /\ srvList # <<>>
+  /\ pc' = "idle" /\ srvList' = <<>>
+  /\ UNCHANGED <<list, txn, nrc, reads, owed, cbs>>
+
 Reset == /\ pc \in {"idle", "mail"} /\ pc' = "idle" /\ list' = <<>> /\ srvList' = <<>>
          /\ UNCHANGED <<txn, nrc, reads, owed, cbs>>
 
-Next == Mail \/ (\E r \in Rcpts, acc \in BOOLEAN : Rcpt(r, acc)) \/ DataAndClose \/ Reset
+Next == Mail \/ (\E r \in Rcpts, acc \in BOOLEAN : Rcpt(r, acc)) \/ DataAndClose \/ DataRefused \/ Reset
         \/ (txn = MaxTxn /\ UNCHANGED vars)
 Spec == Init /\ [][Next]_vars
 
@@ -64,7 +72,7 @@ Spec == Init /\ [][Next]_vars
 \* exactly the recipients accepted in THIS transaction, in order.
 ReadsWhatIsOwed == reads = owed
 ReportsThisTransaction == pc = "idle" /\ txn > 0 => cbs = srvList \/ srvList = <<>>
-ListIsServersList == list = srvList
+ListIsServersList == pc = "mail" => list = srvList
 
 -----------------------------------------------------------------------------
 (* Declarative result of one Close, used to judge recorded cases:          *)
